@@ -177,10 +177,11 @@ impl<'t> W<'t> {
             }
             _ => {
                 self.used("VARPTR/VARSEG/PEEK");
-                let v = self.nums[0].clone();
-                match self.t.choose(3) {
+                let v = self.any_location();
+                match self.t.choose(4) {
                     0 => format!("VARPTR({})", v),
                     1 => format!("VARSEG({})", v),
+                    2 => format!("PEEK(VARPTR({}) + {})", v, self.t.pick(&["1", "0", "3", "7", "2", "8", "100"])),
                     _ => format!("PEEK(VARPTR({}))", v),
                 }
             }
@@ -265,6 +266,37 @@ impl<'t> W<'t> {
             0 => self.t.pick(&["0", "1", "3", "-1", "2.5", "40", "255"]).to_string(),
             1 => format!("LEN({})", self.str(d.min(1))),
             _ => format!("({} MOD 50)", self.num(d.min(1))),
+        }
+    }
+
+    /// A variable of any kind: numeric or string scalar, array element, record, record field.
+    fn any_location(&mut self) -> String {
+        match self.t.choose(5) {
+            0 => self.nums[0].clone(),
+            1 => {
+                let v = self.nums.clone();
+                v[self.t.choose(v.len())].clone()
+            }
+            2 => {
+                let v = self.strs.clone();
+                v[self.t.choose(v.len())].clone()
+            }
+            3 => {
+                if let Some((a, dims, _)) = self.pick_array_any() {
+                    let idx: Vec<String> = (0..dims).map(|_| self.t.pick(&["1", "0", "2", "-1", "3"]).to_string()).collect();
+                    format!("{}({})", a, idx.join(", "))
+                } else {
+                    self.nums[0].clone()
+                }
+            }
+            _ => {
+                if !self.recs.is_empty() {
+                    let r = self.recs[self.t.choose(self.recs.len())].clone();
+                    format!("{}{}", r, self.t.pick(&["", ".N", ".T", ".D"]))
+                } else {
+                    self.nums[0].clone()
+                }
+            }
         }
     }
 
@@ -408,10 +440,15 @@ impl<'t> W<'t> {
             }
             14 => {
                 self.used("DEF SEG/POKE");
-                let v = self.nums[0].clone();
+                // any variable, array element, record or record field; any byte of it (and now and then one beyond it)
+                let v = self.any_location();
                 self.emit(format!("DEF SEG = VARSEG({})", v));
                 let e = self.num(0);
-                self.emit(format!("POKE VARPTR({}), ({}) AND 255", v, e));
+                let off = *self.t.pick(&["", " + 1", " + 3", " + 7", " + 2", " + 9"]);
+                self.emit(format!("POKE VARPTR({}){}, ({}) AND 255", v, off, e));
+                if self.t.chance(1, 2) {
+                    self.emit(format!("PRINT PEEK(VARPTR({}){})", v, off));
+                }
                 self.emit("DEF SEG".to_string());
             }
             15 => {
